@@ -279,4 +279,19 @@ CHECKS = {
         assumptions=["the dead server has been reaped before the client's disconnect (the client's kill(pid, 0) probe sees a zombie as alive)",
                      "a dying process stops between libc calls, or after a prefix of a send; it does not corrupt shared memory on its way out"],
     ),
+    "C05": dict(
+        title="IPC admission: only accepted peers get channels; their files stay private",
+        level="exploration",
+        design_ref="DESIGN.md section 4, C05",
+        technique="property testing with forked clients under generated credentials and generated accept decisions; oracle = accept arguments vs. the clients' effective ids, connect result vs. the refusal code, and a stat() scan of /dev/shm at every libc-call boundary of the server (link-time interposed observer)",
+        level_text="the server runs in-process as root and is stepped by the case; 1-4 forked clients switch to generated uid/gid (7 x 5 values, in a sixth of the cases effective != real) and call the real "
+                   "qb_ipcc_connect concurrently; the accept callback refuses with one of 10 error codes or accepts with the defaults or a generated owner, group and mode (qb_ipcs_connection_auth_set); "
+                   "checked: uid/gid handed to accept = the client's effective ids; a refused client fails with exactly the code, leaves nothing in /dev/shm and never reaches msg_process; every entry of an accepted "
+                   "client below /dev/shm is, before every libc call the server makes, not more permissive than the chosen mode (directories: closed to others), and owned by the authorised user and group once connected",
+        level_note="needs root (otherwise the run is reported inconclusive); modes without owner read/write are not generated (files are created 0600 first: the statement's default); transient ownership by the creating "
+                   "server before chown is not flagged, only the mode is checked at every moment; ownership is checked once the client reports it is connected",
+        stages=[rnd("admit", "c05", 12000, 1000000, essential=["refused", "accepted_default_auth", "accepted_custom_owner", "accepted_custom_mode", "non_root_client", "effective_differs_from_real", "concurrent_mix",
+                                                                 "refused_and_accepted_together", "moments_observed_100", "shm", "socket", "client_talked"])],
+        assumptions=["the sandbox lets root switch to arbitrary numeric ids (no user namespaces restrictions)", "clients and server share a pid namespace (per-connection directory names carry the client pid)"],
+    ),
 }
